@@ -217,6 +217,7 @@ func c02Class6(c *core.Ctx) {
 }
 
 func c02Run(c *core.Ctx) {
+	processWarmup()
 	n := 4
 	if c.Thorough() {
 		n = 5
